@@ -602,6 +602,21 @@ theorem generated_deserialize_meta_eq_model (dflt : JobOptions) (ob : Option (Li
       simp [List.take_take, List.drop_take]
 end XlateTieMeta
 
+/-! ## F16 (known finding, clause `c19-jobopts-ttl-not-roundtripped`): `JobOptions`' TTL on the wire
+
+"For every value of every supported type encode followed by decode yields the original value" is FALSE for the job
+metadata: the TTL field is `as_nanos() as u64` with 0 standing for `None`. Negation on the witness
+`corpus/C19/e-jobwire-f16_ttl_not_roundtripped.ops` (real output `jo 0` → `len=16 wire=0 back=- submit_same=1`,
+`jo 18446744073709551617` → `wire=1 back=1`): a TTL of zero comes back as no TTL — the job can never expire at the remote
+factory —, 2^64 ns likewise, 2^64 + 1 ns comes back as 1 ns. `meta_roundtrip` keeps its hypothesis `0 < ttl < 2^64`. -/
+theorem f16_jobopts_ttl_not_roundtripped :
+    decodeMeta (some (encodeMeta ⟨5, some 0, []⟩)) ≠ some ⟨5, some 0, []⟩ ∧
+    decodeMeta (some (encodeMeta ⟨5, some (2 ^ 64), []⟩)) ≠ some ⟨5, some (2 ^ 64), []⟩ ∧
+    decodeMeta (some (encodeMeta ⟨5, some (2 ^ 64 + 1), []⟩)) ≠ some ⟨5, some (2 ^ 64 + 1), []⟩ ∧
+    (decodeMeta (some (encodeMeta ⟨5, some 0, []⟩))).map (·.ttl) = some none ∧
+    (decodeMeta (some (encodeMeta ⟨5, some (2 ^ 64 + 1), []⟩))).map (·.ttl) = some (some 1) := by
+  decide
+
 end C19
 
 #print axioms C19.int_roundtrip
@@ -641,3 +656,4 @@ end C19
 #print axioms C19.generated_job_options_into_bytes_eq_model
 #print axioms C19.generated_serialize_meta_eq_model
 #print axioms C19.generated_deserialize_meta_eq_model
+#print axioms C19.f16_jobopts_ttl_not_roundtripped
